@@ -397,6 +397,21 @@ impl<P: RuntimeProvider + Send + Sync> SqliteZoneHandler<P> {
         //      for rrset in temp
         //           if (zone_rrset<rrset.name, rrset.type> != rrset)
         //                return (NXRRSET)
+        // zone_rrset<name, type> and zone_name<name> of the pseudocode: the RRsets the zone holds, not
+        // what a query for them would be answered with (wildcard synthesis, CNAMEs, referrals)
+        let records = self.in_memory.records().await;
+        let zone_rrset = |name: &LowerName, rtype: RecordType| {
+            records
+                .get(&RrKey::new(name.clone(), rtype))
+                .filter(|rrset| !rrset.is_empty())
+        };
+        let zone_name = |name: &LowerName| {
+            records
+                .range(RrKey::new(name.clone(), RecordType::Unknown(u16::MIN))..)
+                .take_while(|(key, _)| key.name == *name)
+                .any(|(_, rrset)| !rrset.is_empty())
+        };
+
         // temp<rr.name, rr.type> of the pseudocode: the RRs of the value dependent prerequisites
         let mut value_dependent = Vec::<(LowerName, RecordType, Vec<&Record>)>::new();
 
@@ -420,17 +435,7 @@ impl<P: RuntimeProvider + Send + Sync> SqliteZoneHandler<P> {
                         match require.record_type() {
                             // ANY      ANY      empty    Name is in use
                             RecordType::ANY => {
-                                if self
-                                    .lookup(
-                                        &required_name,
-                                        RecordType::ANY,
-                                        None,
-                                        LookupOptions::default(),
-                                    )
-                                    .await
-                                    .unwrap_or_default()
-                                    .was_empty()
-                                {
+                                if !zone_name(&required_name) {
                                     return Err(ResponseCode::NXDomain);
                                 } else {
                                     continue;
@@ -438,12 +443,7 @@ impl<P: RuntimeProvider + Send + Sync> SqliteZoneHandler<P> {
                             }
                             // ANY      rrset    empty    RRset exists (value independent)
                             rrset => {
-                                if self
-                                    .lookup(&required_name, rrset, None, LookupOptions::default())
-                                    .await
-                                    .unwrap_or_default()
-                                    .was_empty()
-                                {
+                                if zone_rrset(&required_name, rrset).is_none() {
                                     return Err(ResponseCode::NXRRSet);
                                 } else {
                                     continue;
@@ -459,17 +459,7 @@ impl<P: RuntimeProvider + Send + Sync> SqliteZoneHandler<P> {
                         match require.record_type() {
                             // NONE     ANY      empty    Name is not in use
                             RecordType::ANY => {
-                                if !self
-                                    .lookup(
-                                        &required_name,
-                                        RecordType::ANY,
-                                        None,
-                                        LookupOptions::default(),
-                                    )
-                                    .await
-                                    .unwrap_or_default()
-                                    .was_empty()
-                                {
+                                if zone_name(&required_name) {
                                     return Err(ResponseCode::YXDomain);
                                 } else {
                                     continue;
@@ -477,12 +467,7 @@ impl<P: RuntimeProvider + Send + Sync> SqliteZoneHandler<P> {
                             }
                             // NONE     rrset    empty    RRset does not exist
                             rrset => {
-                                if !self
-                                    .lookup(&required_name, rrset, None, LookupOptions::default())
-                                    .await
-                                    .unwrap_or_default()
-                                    .was_empty()
-                                {
+                                if zone_rrset(&required_name, rrset).is_some() {
                                     return Err(ResponseCode::YXRRSet);
                                 } else {
                                     continue;
@@ -512,12 +497,13 @@ impl<P: RuntimeProvider + Send + Sync> SqliteZoneHandler<P> {
 
         // the zone's RRset has to be equal to the one given, not merely contain its RRs
         for (name, rtype, rrs) in value_dependent {
-            let found = self
-                .lookup(&name, rtype, None, LookupOptions::default())
-                .await
-                .unwrap_or_default();
-            if found.iter().count() != rrs.len()
-                || !rrs.iter().all(|rr| found.iter().any(|f| f == *rr))
+            let Some(found) = zone_rrset(&name, rtype) else {
+                return Err(ResponseCode::NXRRSet);
+            };
+            if found.records_without_rrsigs().count() != rrs.len()
+                || !rrs
+                    .iter()
+                    .all(|rr| found.records_without_rrsigs().any(|f| f == *rr))
             {
                 return Err(ResponseCode::NXRRSet);
             }
